@@ -19,11 +19,12 @@
    bound computed without a solver, number of edges, for which k the greedy algorithm already
    delivers a solution, number of paths of the guessed-weights solution, objective values) is a
    parameter.  The two deviations of the pinned code from property C13 are explicit switches:
-     mgs_skips      MinGenSet.solve goes on with k+1 after ANY non-optimal status     (DESIGN §6 #14)
+     mgs_skips      MinGenSet.solve goes on with k+1 after ANY non-optimal status     (DESIGN §6 #14;
+                    repaired in /repo commit 03febc7: the faithful model has it off)
      exit_on_fail   MinFlowDecomp calls exit(0) when its MinGenSet model is unsolved   (DESIGN §6 #15;
                     repaired in /repo commit 78680dc: the faithful model has it off)
    [true] = the code as it stands, [false] = corrected.  The upper ends of the ranges are modelled
-   as they are: MinGenSet's is exclusive (DESIGN §6 #13); for the four graph searches it is a switch
+   as they are (MinGenSet: mgs_upper); for the four graph searches it is a switch
    upper_excl (DESIGN §6 #1: exclusive on the pinned tree, inclusive |E| since /repo commit 67a34b1).
    Both belong to C03/C09/C15, not to C13: every C13 theorem holds for either setting. *)
 From Coq Require Import List Bool Arith Lia QArith Qabs.
@@ -128,9 +129,11 @@ Definition krange (lb ub : nat) : list nat := seq lb (ub - lb).     (* Python ra
 Definition upper (upper_excl : bool) (nedges : nat) : nat := if upper_excl then nedges else S nedges.
 
 (* ---------------------------------------------------------------- MinGenSet.solve
-   for k in range(lowerbound, max(lowerbound+1, len(initial_numbers))):
-       optimize(); if status == "kOptimal": ... return True      else: (statistics only)
-   return False *)
+   for k in range(lowerbound, max(lowerbound+1, len(initial_numbers)+2)):
+       optimize(); if status == "kOptimal": ... return True
+       else: statistics; [since /repo 03febc7: if status != infeasible: return False]
+   return False
+   mgs_skips = true is the loop before 03febc7 (every non-optimal status skipped) *)
 Fixpoint mgs_loop (mgs_skips : bool) (ks : list nat) (sts : list raw) (n : nat) : result * nat :=
   match ks with
   | [] => (NotSolved, n)
@@ -146,7 +149,10 @@ Fixpoint mgs_loop (mgs_skips : bool) (ks : list nat) (sts : list raw) (n : nat) 
       end
   end.
 
-Definition mgs_range (lb nnumbers : nat) : list nat := krange lb (Nat.max (lb + 1) nnumbers).
+(* exclusive upper end of the range: max(lowerbound+1, len(initial_numbers)) on the pinned tree (DESIGN §6 #13),
+   max(lowerbound+1, len(initial_numbers)+2) since /repo commit 2966290 (n+1 elements always suffice) *)
+Definition mgs_upper (lb nnumbers : nat) : nat := Nat.max (lb + 1) (nnumbers + 2).
+Definition mgs_range (lb nnumbers : nat) : list nat := krange lb (mgs_upper lb nnumbers).
 
 Definition mgs_solve (mgs_skips : bool) (lb nnumbers : nat) (sts : list raw) : outcome :=
   let '(r, n) := mgs_loop mgs_skips (mgs_range lb nnumbers) sts 0 in mkout r n 0 lb.
